@@ -14,8 +14,9 @@ import (
 func init() {
 	register(&Check{
 		ID: "C02", Level: "other",
-		Explain: "Decides that the send counter read that feeds the nonce and its increment form one mutex region in the method that calls cipher.AEAD.Seal, that the counter field has no other writer anywhere in the repository, that the nonce handed to Seal is produced inside that region and not modified afterwards, that the role byte and the counter bytes of the nonce are disjoint and the role byte differs between roles (send vs. receive builders mirror each other), and that the raw key never leaves the SessionKey methods. Uniqueness beyond 2^64 messages is not covered.",
-		Run:     runC02,
+		Explain:   "Evaluates every path of the exported SessionKey method that (through any helpers) reaches cipher.AEAD.Seal, together with its callees, over an abstract domain (role concrete, counters symbolic with one version per critical section / atomic step, nonce bytes tracked individually) and decides: the counter value placed in the nonce handed to Seal and the single increment of the send counter belong to one critical section (or one atomic read-modify-write), wherever the nonce buffer is assembled; every nonce byte is a role constant or a byte of that claimed value and all eight counter bytes are present; the nonces of the two roles differ in a constant byte; the counter and the role field have no other writer in the repository; the raw key and AEADs built from it stay on the sealing/opening paths; stored ephemeral private keys are consumed by the key agreement. Uniqueness beyond 2^64 messages is not covered.",
+		Technique: "path-enumerating abstract evaluation of the SSA; repository-wide field write-sets",
+		Run:       runC02,
 		SelfTests: []SelfTest{
 			{Name: "increment outside the critical section", ExpectRule: "C02.R1", Edits: []Edit{
 				{File: "internal/crypto/crypto.go", Old: "\tnonce := s.buildSendNonce()\n\ts.sendNonce++\n\ts.mu.Unlock()\n", New: "\tnonce := s.buildSendNonce()\n\ts.mu.Unlock()\n\ts.sendNonce++\n"},
@@ -49,377 +50,284 @@ func init() {
 			{Name: "rewrite: deferred unlock, seal under the lock", Edits: []Edit{
 				{File: "internal/crypto/crypto.go", Old: "\tnonce := s.buildSendNonce()\n\ts.sendNonce++\n\ts.mu.Unlock()\n", New: "\tdefer s.mu.Unlock()\n\tnonce := s.buildSendNonce()\n\ts.sendNonce++\n"},
 			}},
+			{Name: "nonce byte overwritten after the claim", ExpectRule: "C02.R2", Edits: []Edit{
+				{File: "internal/crypto/crypto.go", Old: "\ts.sendNonce++\n\ts.mu.Unlock()\n", New: "\ts.sendNonce++\n\ts.mu.Unlock()\n\tnonce[11] = 0\n"},
+			}},
+			{Name: "counter truncated to 32 bits in the nonce", ExpectRule: "C02.R2", Edits: []Edit{
+				{File: "internal/crypto/crypto.go", Old: "binary.BigEndian.PutUint64(nonce[4:], s.sendNonce)", New: "binary.BigEndian.PutUint32(nonce[8:], uint32(s.sendNonce))"},
+			}},
+			{Name: "claim split into two critical sections", ExpectRule: "C02.R1", Edits: []Edit{
+				{File: "internal/crypto/crypto.go", Old: "\ts.mu.Lock()\n\tnonce := s.buildSendNonce()\n\ts.sendNonce++\n\ts.mu.Unlock()\n", New: "\ts.mu.Lock()\n\tnonce := s.buildSendNonce()\n\ts.mu.Unlock()\n\ts.mu.Lock()\n\ts.sendNonce++\n\ts.mu.Unlock()\n"},
+			}},
+			{Name: "claim helper releases the lock between read and increment", ExpectRule: "C02.R1", Edits: []Edit{
+				{File: "internal/crypto/crypto.go", Old: "\ts.mu.Lock()\n\tnonce := s.buildSendNonce()\n\ts.sendNonce++\n\ts.mu.Unlock()\n", New: "\tvar nonce [NonceSize]byte\n\tif !s.isInitiator {\n\t\tnonce[0] = 0x80\n\t}\n\tbinary.BigEndian.PutUint64(nonce[4:], s.claimSeq())\n"},
+				{File: "internal/crypto/crypto.go", Old: "// Key returns a copy of the session key bytes.", New: "func (s *SessionKey) claimSeq() uint64 {\n\ts.mu.Lock()\n\tseq := s.sendNonce\n\ts.mu.Unlock()\n\ts.mu.Lock()\n\ts.sendNonce = seq + 1\n\ts.mu.Unlock()\n\treturn seq\n}\n\n// Key returns a copy of the session key bytes."},
+			}},
+			{Name: "role changed after construction", ExpectRule: "C02.R3", Edits: []Edit{
+				{File: "internal/crypto/crypto.go", Old: "// Key returns a copy of the session key bytes.", New: "func (s *SessionKey) SetInitiator(v bool) {\n\ts.mu.Lock()\n\ts.isInitiator = v\n\ts.mu.Unlock()\n}\n\n// Key returns a copy of the session key bytes."},
+			}},
+			{Name: "AEAD from the session key handed out by an exported method", ExpectRule: "C02.R5", Edits: []Edit{
+				{File: "internal/crypto/crypto.go", Old: "\t\"bytes\"\n", New: "\t\"bytes\"\n\t\"crypto/cipher\"\n"},
+				{File: "internal/crypto/crypto.go", Old: "// Key returns a copy of the session key bytes.", New: "func (s *SessionKey) Cipher() (cipher.AEAD, error) {\n\treturn chacha20poly1305.New(s.key[:])\n}\n\n// Key returns a copy of the session key bytes."},
+			}},
+			{Name: "rewrite: claim helper with deferred unlock returns the nonce, merged builder with bool parameter", Edits: []Edit{
+				{File: "internal/crypto/crypto.go", Old: "\ts.mu.Lock()\n\tnonce := s.buildSendNonce()\n\ts.sendNonce++\n\ts.mu.Unlock()\n", New: "\tnonce := s.takeSendNonce()\n"},
+				{File: "internal/crypto/crypto.go", Old: "// Key returns a copy of the session key bytes.", New: "func (s *SessionKey) takeSendNonce() [NonceSize]byte {\n\ts.mu.Lock()\n\tdefer s.mu.Unlock()\n\tcounter := s.sendNonce\n\ts.sendNonce = counter + 1\n\treturn makeNonce(!s.isInitiator, counter)\n}\n\nfunc makeNonce(fromResponder bool, counter uint64) [NonceSize]byte {\n\tvar n [NonceSize]byte\n\tif fromResponder {\n\t\tn[0] = 0x80\n\t}\n\tbinary.BigEndian.PutUint64(n[NonceSize-8:], counter)\n\treturn n\n}\n\n// Key returns a copy of the session key bytes."},
+			}},
+			{Name: "rewrite: counter claimed in a helper, nonce assembled after the unlock, role byte from a helper", Edits: []Edit{
+				{File: "internal/crypto/crypto.go", Old: "\ts.mu.Lock()\n\tnonce := s.buildSendNonce()\n\ts.sendNonce++\n\ts.mu.Unlock()\n", New: "\tvar nonce [NonceSize]byte\n\tnonce[0] = s.directionByte(true)\n\tbinary.BigEndian.PutUint64(nonce[4:], s.claimSendSeq())\n"},
+				{File: "internal/crypto/crypto.go", Old: "// Key returns a copy of the session key bytes.", New: "func (s *SessionKey) claimSendSeq() uint64 {\n\ts.mu.Lock()\n\tseq := s.sendNonce\n\ts.sendNonce++\n\ts.mu.Unlock()\n\treturn seq\n}\n\nfunc (s *SessionKey) directionByte(sending bool) byte {\n\tif s.isInitiator == sending {\n\t\treturn 0x00\n\t}\n\treturn 0x80\n}\n\n// Key returns a copy of the session key bytes."},
+			}},
+			{Name: "rewrite: builder inlined, locals claimed under the lock, switch, append", Edits: []Edit{
+				{File: "internal/crypto/crypto.go", Old: "\ts.mu.Lock()\n\tnonce := s.buildSendNonce()\n\ts.sendNonce++\n\ts.mu.Unlock()\n", New: "\tvar nonce [NonceSize]byte\n\ts.mu.Lock()\n\tseq := s.sendNonce\n\ts.sendNonce = seq + 1\n\tfromInitiator := s.isInitiator\n\ts.mu.Unlock()\n\tbinary.BigEndian.PutUint64(nonce[4:], seq)\n\tswitch {\n\tcase fromInitiator:\n\tdefault:\n\t\tnonce[0] = 0x80\n\t}\n"},
+				{File: "internal/crypto/crypto.go", Old: "\tciphertext := make([]byte, NonceSize, NonceSize+len(plaintext)+TagSize)\n\tcopy(ciphertext, nonce[:])\n", New: "\tciphertext := make([]byte, 0, EncryptionOverhead+len(plaintext))\n\tciphertext = append(ciphertext, nonce[:]...)\n"},
+			}},
+			{Name: "two Seal calls under one claimed counter value", ExpectRule: "C02.R1", Edits: []Edit{
+				{File: "internal/crypto/crypto.go", Old: "\tciphertext = aead.Seal(ciphertext, nonce[:], plaintext, nil)\n", New: "\tciphertext = aead.Seal(ciphertext, nonce[:], plaintext, nil)\n\tciphertext = append(ciphertext, aead.Seal(nil, nonce[:], nil, plaintext)...)\n"},
+			}},
+			{Name: "rewrite: a loop over the plaintext between claim and Seal", Edits: []Edit{
+				{File: "internal/crypto/crypto.go", Old: "\ts.sendNonce++\n\ts.mu.Unlock()\n", New: "\ts.sendNonce++\n\ts.mu.Unlock()\n\n\tsum := 0\n\tfor _, b := range plaintext {\n\t\tsum += int(b)\n\t}\n\t_ = sum\n"},
+			}},
+			{Name: "rewrite: counter bytes written with shifts in a loop", Edits: []Edit{
+				{File: "internal/crypto/crypto.go", Old: "binary.BigEndian.PutUint64(nonce[4:], s.sendNonce)", New: "for i := 0; i < 8; i++ {\n\t\tnonce[4+i] = byte(s.sendNonce >> (56 - 8*uint(i)))\n\t}"},
+			}},
+			{Name: "rewrite: AEAD cached in the session by the constructor", Edits: []Edit{
+				{File: "internal/crypto/crypto.go", Old: "\t\"bytes\"\n", New: "\t\"bytes\"\n\t\"crypto/cipher\"\n"},
+				{File: "internal/crypto/crypto.go", Old: "\tmu sync.Mutex\n}", New: "\tmu sync.Mutex\n\n\taead cipher.AEAD\n}"},
+				{File: "internal/crypto/crypto.go", Old: "\treturn sk\n}", New: "\taead, err := chacha20poly1305.New(sk.key[:])\n\tif err != nil {\n\t\tpanic(err)\n\t}\n\tsk.aead = aead\n\n\treturn sk\n}"},
+				{File: "internal/crypto/crypto.go", Old: "\taead, err := chacha20poly1305.New(s.key[:])\n\tif err != nil {\n\t\treturn nil, fmt.Errorf(\"create cipher: %w\", err)\n\t}\n\n\t// Output: nonce", New: "\taead := s.aead\n\n\t// Output: nonce"},
+				{File: "internal/crypto/crypto.go", Old: "\taead, err := chacha20poly1305.New(s.key[:])\n\tif err != nil {\n\t\treturn nil, fmt.Errorf(\"create cipher: %w\", err)\n\t}\n\n\tplaintext, err", New: "\taead := s.aead\n\n\tplaintext, err"},
+			}},
+			{Name: "rewrite: shared newAEAD helper, Seal in a free function", Edits: []Edit{
+				{File: "internal/crypto/crypto.go", Old: "\t\"bytes\"\n", New: "\t\"bytes\"\n\t\"crypto/cipher\"\n"},
+				{File: "internal/crypto/crypto.go", Old: "\taead, err := chacha20poly1305.New(s.key[:])\n\tif err != nil {\n\t\treturn nil, fmt.Errorf(\"create cipher: %w\", err)\n\t}\n\n\t// Output: nonce", New: "\taead, err := s.newAEAD()\n\tif err != nil {\n\t\treturn nil, err\n\t}\n\n\t// Output: nonce"},
+				{File: "internal/crypto/crypto.go", Old: "\taead, err := chacha20poly1305.New(s.key[:])\n\tif err != nil {\n\t\treturn nil, fmt.Errorf(\"create cipher: %w\", err)\n\t}\n\n\tplaintext, err", New: "\taead, err := s.newAEAD()\n\tif err != nil {\n\t\treturn nil, err\n\t}\n\n\tplaintext, err"},
+				{File: "internal/crypto/crypto.go", Old: "\tciphertext = aead.Seal(ciphertext, nonce[:], plaintext, nil)\n\n\treturn ciphertext, nil\n", New: "\treturn sealInto(aead, ciphertext, nonce, plaintext), nil\n"},
+				{File: "internal/crypto/crypto.go", Old: "// Key returns a copy of the session key bytes.", New: "func (s *SessionKey) newAEAD() (cipher.AEAD, error) {\n\taead, err := chacha20poly1305.New(s.key[:])\n\tif err != nil {\n\t\treturn nil, fmt.Errorf(\"create cipher: %w\", err)\n\t}\n\treturn aead, nil\n}\n\nfunc sealInto(aead cipher.AEAD, dst []byte, nonce [NonceSize]byte, plaintext []byte) []byte {\n\treturn aead.Seal(dst, nonce[:], plaintext, nil)\n}\n\n// Key returns a copy of the session key bytes."},
+			}},
 		},
 	})
 }
 
 func runC02(p *kit.Program, r *kit.Report) {
-	r.Rule("C02.R1", "the send-counter read feeding the nonce and the counter increment are in one mutex region; the increment is +k (k>=1); no other store to the counter exists in the repository")
-	r.Rule("C02.R2", "the nonce buffer handed to AEAD.Seal is written only inside that region")
-	r.Rule("C02.R3", "the role byte lies outside the counter bytes, is non-zero for exactly one role, and the send and receive nonce builders use opposite role polarity for the same byte")
+	r.Rule("C02.R1", "on every path of the sealing entry that reaches Seal, the counter value placed in the nonce and the single increment (+k, k>=1) of the send counter belong to one critical section of the session mutex (or to one atomic read-modify-write); the nonce uses the same offset from the claimed value on all paths; the send counter has no other writer in the repository")
+	r.Rule("C02.R2", "every byte of the nonce handed to AEAD.Seal is a role-determined constant or a byte of the claimed counter value, and all eight bytes of the claimed value are present")
+	r.Rule("C02.R3", "the nonces of the two roles differ in a constant byte (disjoint nonce spaces under the shared key); the role field is written only by the key-derivation constructor")
 	r.Rule("C02.R6", "a long-lived (stored) ephemeral private key is consumed by the key agreement: where ComputeECDH takes its private key from a struct field or through a pointer parameter, that same location is zeroed before the session key is derived, so a duplicated handshake message cannot re-derive the same key with fresh (zero) nonce counters")
-	r.Rule("C02.R5", "the key field is accessed only by SessionKey methods and the key-derivation constructor; the AEAD is constructed from it only in the sealing/opening methods; the key getter has no caller in non-test code")
+	r.Rule("C02.R5", "the key field is accessed only by SessionKey methods, functions confined to the sealing/opening paths and the key-derivation constructor; the AEAD is constructed from it only on the sealing/opening paths; the key getter has no caller in non-test code")
 	cx := newCryptoCtx(p, r)
 	if cx == nil {
 		return
 	}
-	fn, seal := cx.encrypt, cx.sealCall
-	fname := kit.FuncName(fn)
-	li := kit.Locks(fn)
-
-	// nonce buffer handed to Seal (arg 1)
-	nonceArg := kit.Arg(seal, 1)
-	nr, ok := kit.AddrRange(nonceArg)
-	if !r.Require(ok && nr.Root != nil, "anchor-unresolved: nonce argument of Seal has no constant buffer root") {
-		return
-	}
-	// writers of the nonce buffer inside Encrypt
-	type writer struct {
-		in   ssa.Instruction
-		from ssa.Value
-	}
-	var writers []writer
-	kit.Instrs(fn, func(in ssa.Instruction) {
-		switch x := in.(type) {
-		case *ssa.Store:
-			if ar, ok := kit.AddrRange(x.Addr); ok && ar.Root == nr.Root {
-				writers = append(writers, writer{in, x.Val})
+	cx.sendCover = newSxCoverage()
+	layouts := map[bool]sxLayout{}
+	layoutWhy := map[bool]string{}
+	var counter *types.Var
+	for _, entry := range cx.sealEntries {
+		fname := kit.FuncName(entry)
+		pos := p.Pos(entry.Pos())
+		runs := cx.exploreSend(entry, cx.sendCover)
+		nPaths, nSeal := 0, 0
+		var claimBad, valueBad, contentBad []string
+		add := func(list *[]string, s string) {
+			for _, x := range *list {
+				if x == s {
+					return
+				}
 			}
-		case ssa.CallInstruction:
-			if x == ssa.CallInstruction(seal) {
-				return
+			*list = append(*list, s)
+		}
+		offsets := map[int64]bool{}
+		incomplete := ""
+		for _, run := range runs {
+			if run.incomplete != "" {
+				incomplete = run.incomplete
 			}
-			for i, a := range x.Common().Args {
-				if ar, ok := kit.AddrRange(a); ok && ar.Root == nr.Root {
-					cal := kit.CalleeOf(x)
-					if cal.Built == "copy" && i == 1 {
-						continue // read
-					}
-					if cal.Built == "len" || cal.Built == "cap" {
+			nPaths += len(run.paths)
+			for _, pt := range run.paths {
+				claims := map[any]bool{}
+				for _, ev := range pt.events {
+					if ev.kind != seSeal {
 						continue
 					}
-					writers = append(writers, writer{in, nil})
-				}
-			}
-		}
-	})
-	r.Count("nonce_buffer_writers", len(writers))
-	// the SessionKey method (if any) whose result is stored into the nonce buffer
-	var builder *ssa.Function
-	for _, w := range writers {
-		if w.from == nil {
-			continue
-		}
-		if c, _, ok := kit.ResultOf(w.from); ok {
-			if cal := kit.CalleeOf(c); cal.Static != nil && cx.isSKMethod(cal.Static) {
-				builder = cal.Static
-			}
-		}
-	}
-
-	// the counter field: uint64 SessionKey field read on the way to the nonce
-	var counter *types.Var
-	var counterRead ssa.Instruction // instruction in Encrypt that reads the counter for the nonce
-	for _, w := range writers {
-		if w.from == nil {
-			continue
-		}
-		if c, _, ok := kit.ResultOf(w.from); ok {
-			if cal := kit.CalleeOf(c); cal.Static != nil && cx.isSKMethod(cal.Static) {
-				for f := range cx.fields {
-					if b, ok := f.Type().(*types.Basic); ok && b.Kind() == types.Uint64 && cx.methodReads(cal.Static, f) {
-						counter, counterRead = f, c
+					nSeal++
+					at := p.Pos(ev.instr.Pos())
+					if ev.nonce == nil {
+						add(&contentBad, "the nonce handed to Seal at "+at+" has no constant length")
+						continue
 					}
-				}
-			}
-		}
-	}
-	if counter == nil {
-		// inline form: PutUint64(nonce[..], s.sendNonce)
-		for _, w := range writers {
-			if ci, ok := w.in.(ssa.CallInstruction); ok {
-				for _, a := range ci.Common().Args {
-					if f, _ := kit.LoadedField(a); f != nil && cx.fields[f] {
-						counter, counterRead = f, a.(ssa.Instruction)
-					}
-				}
-			}
-		}
-	}
-	if counter == nil {
-		// lock-free form: a uint64 field advanced through sync/atomic (or stored) on the send path
-		for _, f := range []*ssa.Function{fn, builder} {
-			if f == nil {
-				continue
-			}
-			for fld := range cx.fields {
-				if b, ok := fld.Type().(*types.Basic); ok && b.Kind() == types.Uint64 && cx.methodReads(f, fld) && !cx.methodReads(cx.decrypt, fld) {
-					counter = fld
-					for _, c := range kit.Calls(fn) {
-						counterRead = c
-						break
-					}
-				}
-			}
-		}
-	}
-	if !r.Require(counter != nil, "anchor-unresolved: no uint64 SessionKey field feeds the nonce handed to Seal") {
-		return
-	}
-
-	// R1: increment in Encrypt, same region
-	var incs []*ssa.Store
-	kit.Instrs(fn, func(in ssa.Instruction) {
-		if st, ok := in.(*ssa.Store); ok {
-			if fa, ok := st.Addr.(*ssa.FieldAddr); ok && kit.FieldOfAddr(fa) == counter {
-				incs = append(incs, st)
-			}
-		}
-	})
-	// sync/atomic operations on the counter along the send path (sealing method + nonce builder)
-	type atomicOp struct {
-		call ssa.CallInstruction
-		name string
-		fn   *ssa.Function
-	}
-	var atomics []atomicOp
-	sendPath := []*ssa.Function{fn}
-	if builder != nil {
-		sendPath = append(sendPath, builder)
-	}
-	plainLoads := 0
-	for _, f := range sendPath {
-		for _, c := range kit.Calls(f) {
-			if cal := kit.CalleeOf(c); cal.Pkg == "sync/atomic" && len(c.Common().Args) > 0 {
-				if fa, ok := c.Common().Args[0].(*ssa.FieldAddr); ok && kit.FieldOfAddr(fa) == counter {
-					atomics = append(atomics, atomicOp{c, cal.Name, f})
-				}
-			}
-		}
-		kit.Instrs(f, func(in ssa.Instruction) {
-			if v, ok := in.(ssa.Value); ok {
-				if lf, _ := kit.LoadedField(v); lf == counter {
-					plainLoads++
-				}
-			}
-		})
-	}
-	atomicMode := len(atomics) > 0
-	if atomicMode {
-		// accepted lock-free idiom: the counter value placed in the nonce is the result of ONE
-		// atomic read-modify-write (Add); no separate load (atomic or plain) and no plain store.
-		adds, others := 0, 0
-		for _, a := range atomics {
-			if strings.HasPrefix(a.name, "Add") {
-				adds++
-			} else {
-				others++
-			}
-		}
-		ok := adds == 1 && others == 0 && plainLoads == 0 && len(incs) == 0
-		if ok {
-			// the nonce bytes must derive from that read-modify-write's result
-			fromAdd := false
-			for _, src := range kit.Slice(nonceArg, kit.SliceOpts{Prog: p, FollowParams: true, FollowCall: func(c ssa.CallInstruction) bool {
-				cal := kit.CalleeOf(c)
-				return cal.Static != nil && cx.isSKMethod(cal.Static)
-			}}) {
-				if src.Kind == kit.SrcCall && src.Call == atomics[0].call {
-					fromAdd = true
-				}
-			}
-			for _, a := range atomics {
-				if strings.HasPrefix(a.name, "Add") {
-					for _, src := range kit.Slice(nonceArg, kit.SliceOpts{Prog: p, FollowParams: true, FollowCall: func(c ssa.CallInstruction) bool {
-						cal := kit.CalleeOf(c)
-						return cal.Static != nil && cx.isSKMethod(cal.Static)
-					}}) {
-						if src.Kind == kit.SrcCall && src.Call == a.call {
-							fromAdd = true
+					// R2: content
+					var sym *sxSym
+					var off int64
+					seen := map[int]int{}
+					okContent := true
+					for i, b := range ev.nonce {
+						switch b.kind {
+						case sbUnknown:
+							okContent = false
+							add(&contentBad, fmt.Sprintf("byte %d of the nonce handed to Seal at %s is neither a constant nor a byte of the claimed counter value", i, at))
+						case sbPart:
+							if sym == nil {
+								sym, off = b.sym, b.off
+							} else if sym != b.sym || off != b.off {
+								okContent = false
+								add(&contentBad, "the counter bytes of the nonce handed to Seal at "+at+" stem from different reads of the counter")
+							}
+							seen[b.k]++
 						}
 					}
+					if sym == nil {
+						add(&contentBad, "the nonce handed to Seal at "+at+" contains no counter: every message is sealed with the same nonce")
+						continue
+					}
+					for k := 0; k < 8; k++ {
+						if seen[k] == 0 {
+							okContent = false
+							add(&contentBad, fmt.Sprintf("byte %d of the 64-bit counter is missing from the nonce handed to Seal at %s: nonces repeat when the counter passes 2^%d", k, at, 8*k))
+							break
+						}
+					}
+					if !okContent {
+						continue
+					}
+					if sym.field == nil || !cx.counters[sym.field] {
+						add(&contentBad, "the counter in the nonce handed to Seal at "+at+" is not a counter field of the session")
+						continue
+					}
+					counter = sym.field
+					offsets[off] = true
+					// R1: the claim
+					type claim struct {
+						sym *sxSym
+						off int64
+					}
+					if claims[claim{sym, off}] {
+						add(&claimBad, "a path seals twice with the same claimed counter value (second Seal at "+at+"): two messages share one nonce")
+					}
+					claims[claim{sym, off}] = true
+					var mine []sxEvent
+					for _, e2 := range pt.events {
+						if e2.kind != seStore || e2.field != sym.field {
+							continue
+						}
+						sat := p.Pos(e2.instr.Pos())
+						switch {
+						case e2.cur == nil:
+							add(&claimBad, "the send counter is stored at "+sat+" without holding the session mutex exclusively (and not by an atomic read-modify-write): two concurrent senders can seal with the same nonce")
+						case e2.cur == sym:
+							mine = append(mine, e2)
+						}
+					}
+					if len(mine) == 0 {
+						add(&claimBad, "the counter value sealed at "+at+" is not advanced in the critical section / atomic step that read it: two concurrent senders can seal with the same nonce, or the next message re-uses it")
+						continue
+					}
+					last := mine[len(mine)-1]
+					if v := last.val; !(v.k == sxInt && v.form == siLin && v.sym == sym && v.off >= 1) {
+						add(&valueBad, "the counter store at "+p.Pos(last.instr.Pos())+" does not leave the counter at its claimed value plus a positive constant")
+					}
 				}
 			}
-			ok = fromAdd
+			l, why := sendLayout(run)
+			if _, have := layouts[run.role]; !have {
+				layouts[run.role], layoutWhy[run.role] = l, why
+			} else if why == "" && !layouts[run.role].equal(l) {
+				layoutWhy[run.role] = "sealing entries disagree on the nonce layout"
+			}
 		}
-		r.Decide(ok, "C02.R1", fname+" lock-free counter", p.Pos(atomics[0].call.Pos()),
-			"the nonce counter is obtained by a single atomic read-modify-write",
-			fmt.Sprintf("the send counter is read and advanced in separate steps (%d atomic Add, %d other atomic ops, %d plain loads, %d plain stores) without a common critical section: two concurrent senders can seal with the same nonce", adds, others, plainLoads, len(incs)))
-	} else if len(incs) == 0 {
-		r.Violation("C02.R1", fname+" counter increment", p.Pos(fn.Pos()), "the sealing method never advances %s: every message is sealed with the same nonce", counter.Name())
+		if !r.Require(incomplete == "", "model-incomplete: exploration of %s: %s", fname, incomplete) {
+			return
+		}
+		r.Count("send_paths_explored", nPaths)
+		r.Count("seal_events", nSeal)
+		if !r.Require(nSeal > 0, "anchor-unresolved: no explored path of %s reaches AEAD.Seal", fname) {
+			return
+		}
+		if len(offsets) > 1 {
+			add(&valueBad, "paths place different offsets of the claimed counter value in the nonce")
+		}
+		r.Decide(len(claimBad) == 0, "C02.R1", fname+" send counter claim", pos,
+			"on every sealing path the nonce counter and the single increment share one critical section / atomic step",
+			strings.Join(claimBad, "; "))
+		r.Decide(len(valueBad) == 0, "C02.R1", fname+" send counter increment value", pos, "counter := counter + k, k>=1; one nonce offset on all paths", strings.Join(valueBad, "; ")+": nonces can repeat")
+		r.Decide(len(contentBad) == 0, "C02.R2", fname+" nonce content", pos,
+			"every nonce byte is a role constant or a byte of the claimed counter value; all 8 counter bytes present",
+			strings.Join(contentBad, "; "))
 	}
-	for i, st := range incs {
-		key := fmt.Sprintf("%s increment %s #%d", fname, counter.Name(), i+1)
-		okInc := false
-		if b, ok := st.Val.(*ssa.BinOp); ok && b.Op == token.ADD {
-			if k, isc := kit.ConstInt(b.Y); isc && k >= 1 {
-				if f, _ := kit.LoadedField(b.X); f == counter {
-					okInc = true
-				}
-			}
-		}
-		r.Decide(okInc, "C02.R1", key+" value", p.Pos(st.Pos()), "counter := counter + k, k>=1", "the counter store is not an increment of the counter by a positive constant")
-		same := li.SameRegion(counterRead, st, cx.mu)
-		r.Decide(same, "C02.R1", key+" region", p.Pos(st.Pos()),
-			"nonce read and increment are in one mutex region",
-			"the counter read that feeds the nonce and the increment are not in one critical section: two concurrent writers can seal with the same nonce")
+	if counter == nil {
+		counter = cx.sendCtr
 	}
-	// program-wide write set
-	nOther := 0
-	for _, acc := range p.FieldAccessesOfKind(counter, kit.FieldStore, kit.FieldAddrUse) {
-		if acc.Fn == fn {
-			continue
-		}
-		if atomicMode && acc.Kind == kit.FieldAddrUse {
-			onPath := false
-			for _, f := range sendPath {
-				if acc.Fn == f {
-					onPath = true
-				}
+	// program-wide write set of the send counter
+	if counter != nil {
+		nOther, nPath := 0, 0
+		for _, acc := range p.FieldAccessesOfKind(counter, kit.FieldStore, kit.FieldAddrUse) {
+			if cx.sendCover.instrs[acc.Instr] && cx.confined(kit.TopLevel(acc.Fn), cx.sealEntries) {
+				nPath++
+				continue // judged on the paths above
 			}
-			if onPath {
-				continue // judged by the lock-free obligation above
-			}
-		}
-		// zero-initialisation in a constructor literal is fine
-		if acc.Kind == kit.FieldStore {
-			if k, ok := kit.ConstInt(acc.Val); ok && k == 0 {
+			if isAtomicLoadUse(acc) {
 				continue
 			}
-		}
-		nOther++
-		r.Violation("C02.R1", fmt.Sprintf("%s other writer of %s #%d", kit.FuncName(acc.Fn), counter.Name(), nOther), p.Pos(acc.Instr.Pos()),
-			"the send counter is written outside the sealing method: a reset or rewind re-uses nonces under the same key")
-	}
-	r.OK("C02.R1", "write-set of "+counter.Name(), p.Pos(fn.Pos()), "%d store(s) in the sealing method, %d elsewhere", len(incs), nOther)
-
-	// R2: every writer of the nonce buffer is inside the region
-	for i, w := range writers {
-		if atomicMode {
-			break // the nonce buffer is a local filled from the single atomic RMW; R1 judged it
-		}
-		_, held := li.HeldAt(w.in, cx.mu)
-		r.Decide(held, "C02.R2", fmt.Sprintf("%s nonce buffer writer #%d", fname, i+1), p.Pos(w.in.Pos()),
-			"written while the mutex is held", "the nonce handed to Seal is written outside the critical section that owns the counter")
-	}
-	if len(writers) == 0 {
-		r.Violation("C02.R2", fname+" nonce buffer", p.Pos(seal.Pos()), "the nonce handed to Seal is never written: constant nonce")
-	}
-
-	// R3: role byte vs counter bytes
-	type dirStore struct {
-		m     *ssa.Function
-		idx   int64
-		val   int64
-		onTru bool // stored when role field is true
-	}
-	var ds []dirStore
-	counterLo := int64(-1)
-	for _, m := range cx.methods {
-		kit.Instrs(m, func(in ssa.Instruction) {
-			switch x := in.(type) {
-			case *ssa.Store:
-				ia, ok := x.Addr.(*ssa.IndexAddr)
-				if !ok {
-					return
-				}
-				idx, ok := kit.ConstInt(ia.Index)
-				if !ok {
-					return
-				}
-				for _, g := range kit.GuardsOf(in) {
-					if lf, _ := kit.LoadedField(g.Cond); lf == cx.isInit {
-						v, _ := kit.ConstInt(x.Val)
-						ds = append(ds, dirStore{m, idx, v, g.Polarity})
-					}
-				}
-			case ssa.CallInstruction:
-				cal := kit.CalleeOf(x)
-				if cal.Name == "PutUint64" && m == builder {
-					if ar, ok := kit.AddrRange(kit.Arg(x, 0)); ok {
-						counterLo = ar.Lo
-					}
+			if acc.Kind == kit.FieldStore {
+				if k, ok := kit.ConstInt(acc.Val); ok && k == 0 && c02IsDerivation(p, kit.TopLevel(acc.Fn), 0) {
+					continue // zero-initialisation in the constructor
 				}
 			}
-		})
+			nOther++
+			r.Violation("C02.R1", fmt.Sprintf("%s other writer of send counter #%d", kit.FuncName(acc.Fn), nOther), p.Pos(acc.Instr.Pos()),
+				"the send counter is written outside the claim of the sealing path: a reset or rewind re-uses nonces under the same key")
+		}
+		r.OK("C02.R1", "write-set of send counter", p.Pos(cx.encrypt.Pos()), "%d write(s) on the sealing path, %d elsewhere", nPath, nOther)
 	}
-	if counterLo < 0 {
-		// fall back: any PutUint64 in a SessionKey method that loads the counter
-		for _, m := range cx.methods {
-			if !cx.methodReads(m, counter) {
+
+	// R3: role separation
+	lt, lf := layouts[true], layouts[false]
+	sep := -1
+	if layoutWhy[true] == "" && layoutWhy[false] == "" && len(lt.bytes) == len(lf.bytes) {
+		for i := range lt.bytes {
+			if lt.bytes[i].kind == sbConc && lf.bytes[i].kind == sbConc && lt.bytes[i].c != lf.bytes[i].c {
+				sep = i
+				break
+			}
+		}
+	}
+	if layoutWhy[true] == "" && layoutWhy[false] == "" {
+		r.Decide(sep >= 0, "C02.R3", "send nonce role separation", p.Pos(cx.encrypt.Pos()),
+			fmt.Sprintf("nonce byte %d is a constant that differs between the roles (initiator %s, responder %s)", sep, lt, lf),
+			fmt.Sprintf("no constant byte of the nonce differs between the roles (initiator %s, responder %s): both directions can produce the same nonce under the shared key", lt, lf))
+	} else {
+		r.Violation("C02.R3", "send nonce role separation", p.Pos(cx.encrypt.Pos()), "the nonce layout of a role is not determined (%s %s): the two directions are not provably separated", layoutWhy[true], layoutWhy[false])
+	}
+	nRoleW := 0
+	cfg := cx.configFields()
+	for _, f := range cfg {
+		for _, acc := range p.FieldAccessesOfKind(f, kit.FieldStore, kit.FieldAddrUse) {
+			if c02IsDerivation(p, kit.TopLevel(acc.Fn), 0) {
 				continue
 			}
-			for _, c := range kit.Calls(m) {
-				if kit.CalleeOf(c).Name == "PutUint64" {
-					if ar, ok := kit.AddrRange(kit.Arg(c, 0)); ok {
-						counterLo = ar.Lo
-					}
+			if acc.Kind == kit.FieldAddrUse {
+				if c, ok := acc.Instr.(ssa.CallInstruction); !ok || kit.CalleeOf(c).Iface || kit.CalleeOf(c).Built == "len" {
+					continue // not handed to a callee that could write it
 				}
 			}
+			nRoleW++
+			r.Violation("C02.R3", fmt.Sprintf("%s writes role field #%d", kit.FuncName(acc.Fn), nRoleW), p.Pos(acc.Instr.Pos()),
+				"the role/direction state of a session (%s) is changed after construction: the end then sends in the nonce space of its peer", cx.fieldRole(f))
 		}
 	}
-	r.Require(counterLo >= 0, "anchor-unresolved: counter bytes of the nonce (PutUint64 into the nonce) not found")
-	r.Count("role_byte_stores", len(ds))
-	var sendTrue, sendFalse, recvTrue, recvFalse []dirStore
-	for _, d := range ds {
-		isSend := cx.methodReads(d.m, counter)
-		switch {
-		case isSend && d.onTru:
-			sendTrue = append(sendTrue, d)
-		case isSend && !d.onTru:
-			sendFalse = append(sendFalse, d)
-		case !isSend && d.onTru:
-			recvTrue = append(recvTrue, d)
-		default:
-			recvFalse = append(recvFalse, d)
-		}
-		key := fmt.Sprintf("%s role byte [%d]", kit.FuncName(d.m), d.idx)
-		ok := counterLo >= 0 && d.idx < counterLo && d.val != 0
-		r.Decide(ok, "C02.R3", key, p.Pos(d.m.Pos()), fmt.Sprintf("role byte index %d is below the counter bytes (from %d) and its value %d is non-zero", d.idx, counterLo, d.val),
-			"the role byte overlaps the counter bytes or is zero: both directions can produce the same nonce under the shared key")
-	}
-	// exactly one polarity on the send side, mirrored on the receive side
-	sendOne := (len(sendTrue) > 0) != (len(sendFalse) > 0)
-	r.Decide(sendOne, "C02.R3", "send nonce builder role polarity", p.Pos(fn.Pos()),
-		"the role byte is set for exactly one role on the send side",
-		"the send nonce builder sets the role byte for both roles or for none: the two directions share one nonce space")
-	mirror := false
-	if sendOne {
-		s := append(sendTrue, sendFalse...)[0]
-		var opp []dirStore
-		if s.onTru {
-			opp = recvFalse
-		} else {
-			opp = recvTrue
-		}
-		for _, o := range opp {
-			if o.idx == s.idx && o.val == s.val {
-				mirror = true
-			}
-		}
-		if len(recvTrue)+len(recvFalse) == 0 {
-			mirror = true // no separate receive builder (direction checked some other way: C01.R3 decides that)
-		}
-	}
-	r.Decide(mirror, "C02.R3", "receive nonce builder mirrors send", p.Pos(cx.decrypt.Pos()),
-		"the receive builder expects the role byte the opposite role sends",
-		"the receive-side expected nonce does not mirror the send-side role byte")
+	r.OK("C02.R3", "write-set of role field", p.Pos(cx.encrypt.Pos()), "%d role/configuration field(s) read on the sealing/opening paths, %d write(s) outside the constructor", len(cfg), nRoleW)
 
 	c02R6(p, r)
 
 	// R5: key confinement
-	var keyFld *types.Var
-	for f := range cx.fields {
-		if a, ok := f.Type().Underlying().(*types.Array); ok && a.Len() == 32 {
-			keyFld = f
-		}
-	}
+	keyFld := cx.keyFld
 	if r.Require(keyFld != nil, "anchor-unresolved: 32-byte key field of SessionKey") {
+		entries := append(append([]*ssa.Function{}, cx.sealEntries...), cx.openEntries...)
 		n := 0
 		for _, acc := range p.FieldAccesses(keyFld) {
 			n++
 			top := kit.TopLevel(acc.Fn)
-			okAcc := cx.isSKMethod(top) || c02IsDerivation(p, top, 0)
+			okAcc := cx.isSKMethod(top) || c02IsDerivation(p, top, 0) || cx.confined(top, entries)
 			if !okAcc {
 				r.Violation("C02.R5", fmt.Sprintf("%s accesses key", kit.FuncName(acc.Fn)), p.Pos(acc.Instr.Pos()), "the session key is touched outside the SessionKey methods and the derivation constructor")
 			}
@@ -440,14 +348,28 @@ func runC02(p *kit.Program, r *kit.Report) {
 					if !isFA || kit.FieldOfAddr(fa) != keyFld {
 						continue // sealed boxes / management keys have their own keys
 					}
-					r.Decide(top == cx.encrypt || top == cx.decrypt, "C02.R5", "AEAD constructed in "+kit.FuncName(f), p.Pos(c.Pos()),
-						"AEAD built from the session key only in the sealing/opening methods", "an AEAD is constructed from the session key outside the sealing/opening methods (nonce counter not shared)")
+					okSite := cx.confined(top, entries)
+					if !okSite && c02IsDerivation(p, top, 0) {
+						// cached in the session by the constructor: the AEAD may only be stored
+						// into a SessionKey field, which is then confined like the key
+						if fld := c02StoredInSKField(cx, c); fld != nil {
+							okSite = true
+							for _, acc := range p.FieldAccesses(fld) {
+								t2 := kit.TopLevel(acc.Fn)
+								if !(cx.isSKMethod(t2) || c02IsDerivation(p, t2, 0) || cx.confined(t2, entries)) {
+									okSite = false
+								}
+							}
+						}
+					}
+					r.Decide(okSite, "C02.R5", "AEAD constructed in "+kit.FuncName(f), p.Pos(c.Pos()),
+						"AEAD built from the session key only on the sealing/opening paths", "an AEAD is constructed from the session key in a function that is reachable outside the sealing/opening entries (nonce counter not shared)")
 				}
 			}
 		}
 		// getter returning the key: callers
 		for _, m := range cx.methods {
-			if m == cx.encrypt || m == cx.decrypt {
+			if cx.sealPath[m] || cx.openPath[m] {
 				continue
 			}
 			res := m.Signature.Results()
@@ -458,8 +380,39 @@ func runC02(p *kit.Program, r *kit.Report) {
 					fmt.Sprintf("the raw session key is extracted by %d non-test call site(s)", len(callers)))
 			}
 		}
-		r.OK("C02.R5", "key field access set", p.Pos(fn.Pos()), "%d accesses, all inside SessionKey methods / constructor", n)
+		r.OK("C02.R5", "key field access set", p.Pos(cx.encrypt.Pos()), "%d accesses, all inside SessionKey methods / constructor", n)
 	}
+}
+
+// c02StoredInSKField: every use of the AEAD returned by the construction call c is a store
+// into one field of SessionKey (or the error check); returns that field.
+func c02StoredInSKField(cx *cryptoCtx, c ssa.CallInstruction) *types.Var {
+	call, ok := c.(*ssa.Call)
+	if !ok {
+		return nil
+	}
+	v := kit.ExtractOf(call, 0)
+	if v == nil || v.Referrers() == nil {
+		return nil
+	}
+	var fld *types.Var
+	for _, ref := range *v.Referrers() {
+		switch x := ref.(type) {
+		case *ssa.DebugRef:
+		case *ssa.Store:
+			fa, ok := x.Addr.(*ssa.FieldAddr)
+			if !ok || x.Val != v || !cx.fields[kit.FieldOfAddr(fa)] {
+				return nil
+			}
+			if fld != nil && fld != kit.FieldOfAddr(fa) {
+				return nil
+			}
+			fld = kit.FieldOfAddr(fa)
+		default:
+			return nil
+		}
+	}
+	return fld
 }
 
 // c02R6 decides the "stored private key is consumed" clause over every ComputeECDH call site.
